@@ -409,8 +409,9 @@ class OrderSub:
         if not keys:
             raise core.HarnessError("order probe %s: no entries selected" % self.probe)
         nnum = sum(1 for k in keys if not isinstance(base["result"][k], str))
-        if nnum < max(1, len(keys) // 2):
-            raise core.HarnessError("order probe %s: most entries raise on the empty history" % self.probe)
+        if nnum < min(6, len(keys)):
+            raise core.HarnessError("order probe %s: only %d of %d selected entries evaluate on the empty history" % (self.probe, nnum, len(keys)))
+        res.count("probe_entries_numeric", nnum)
         res.count("probe_entries", len(keys))
         for o in outs[1:]:
             res.count("evaluations", len(keys))
